@@ -83,6 +83,7 @@ inductive Err where
   | noneFound        -- ValueError "Could not find any of ..."
   | keyError         -- the named column is not in the file
   | unboundNread     -- UnboundLocalError: no decoding branch for this colname
+  | decode (f : Fault)  -- raised inside unpack_rvint / unpack_pack9 / unpack_pids (only in the value model, Model/C16Values.lean)
   deriving DecidableEq, Repr
 
 def Err.toString : Err → String
@@ -90,6 +91,7 @@ def Err.toString : Err → String
   | .noneFound => "none-found"
   | .keyError => "key-error"
   | .unboundNread => "unbound-nread"
+  | .decode f => s!"decode-{f}"
 
 inductive Warn where
   | future     -- FutureWarning: load_pos / load_vel are deprecated
